@@ -1342,7 +1342,7 @@ def corpus_cot(n_items, dim):
     return cots
 
 
-def corpus_cases(dtype, n_items, rows_fn=None, stream="corpus"):
+def corpus_cases(dtype, n_items, rows_fn=None, stream="corpus", cot_fn=None):
     """one mixed-regime batch per (op, group): item k of every leaf sits in another regime (zero / tiny / around eps / sqrt(eps) /
     0.05 / ordinary / large rotation, both hemispheres, translations 0..1e6, scales e^-40..e^40, points 0..1e6, w in {1,0,-2.5})"""
     import random as _r
@@ -1371,7 +1371,7 @@ def corpus_cases(dtype, n_items, rows_fn=None, stream="corpus"):
                 vals.append(U.to_dtype_exact(rows, dtype)[1].tolist())
             case["values"] = vals
             od = tdim(node_type(node, ltypes))
-            case["cot"] = U.to_dtype_exact(corpus_cot(n_items, od), dtype)[1].tolist()
+            case["cot"] = U.to_dtype_exact((cot_fn or corpus_cot)(n_items, od), dtype)[1].tolist()
             case["tags"] = [stream] * len(ltypes)
             cases.append(case)
     return cases
@@ -1386,12 +1386,12 @@ def single_item_case(case, b):
     return c
 
 
-def run_corpus(ctx: Ctx, n_items: int, dtypes, fd_every: int, rows_fn=None, stream="corpus"):
+def run_corpus(ctx: Ctx, n_items: int, dtypes, fd_every: int, rows_fn=None, stream="corpus", cot_fn=None):
     """(2) deterministic corner corpus, identical for every seed; (1) extreme-but-valid magnitudes; (3) per-block relative
     tolerances; (7) mixed-regime batches, additionally compared item by item with the same call on each item alone"""
     kept = []
     for dtype in dtypes:
-        for case in corpus_cases(dtype, n_items, rows_fn, stream):
+        for case in corpus_cases(dtype, n_items, rows_fn, stream, cot_fn):
             node = from_json(case["prog"])
             ps = prog_str(node)
             case["fd"] = True
@@ -1742,15 +1742,24 @@ def run_views(ctx: Ctx):
 def run(ctx: Ctx):
     torch.set_num_threads(max(1, min(4, int(os.environ.get("OMP_NUM_THREADS", "4")))))
     # deterministic part first: identical for every seed
-    from . import util_autograd_h2 as H2, util_autograd_h4 as H4
+    from . import util_autograd_h2 as H2, util_autograd_h4 as H4, util_autograd_h5 as H5
     H4.run_fresh_modes(ctx)    # pass 4 (23): keys fresh in the process are used FIRST under inference_mode / no_grad, then with backward
     H2.run_all(ctx)            # pass 2: interleavings, argument combinations, error paths, grad modes, duck types, copies, memory, sizes
     run_corpus(ctx, n_items=ctx.pick(10, 24), dtypes=("float64", "float32"), fd_every=ctx.pick(3, 1))
     # pass 4 (20): exact coincidences (quarter turns |v| == |w|, theta == 0.05 / eps, |sigma| == theta, Y == X, p == t, ...)
-    run_corpus(ctx, n_items=12, dtypes=("float64", "float32"), fd_every=ctx.pick(3, 1), rows_fn=H4.tie_values, stream="ties")
+    run_corpus(ctx, n_items=12, dtypes=("float64", "float32"), fd_every=ctx.pick(4, 1), rows_fn=H4.tie_values, stream="ties")
+    # pass 5 (36): tiny-but-non-zero rotations, nearly equal operands, cotangents scaled by 2^+-40 (float64)
+    run_corpus(ctx, n_items=12, dtypes=("float64",), fd_every=ctx.pick(4, 1), rows_fn=H5.tiny_values, stream="tiny", cot_fn=H5.tiny_cot)
     run_reuse(ctx)
     run_stale(ctx)
     run_views(ctx)
+    H5.run_poison(ctx)         # (32) constants written in place by another operation on a degenerate shape
+    H5.run_cotscale(ctx)       # (36)
+    H5.run_lowp(ctx)           # (30) float16 / bfloat16
+    H5.run_defaults(ctx)       # (29)
+    H5.run_callbacks(ctx)      # (31)
+    H5.run_subprops(ctx)       # (33)
+    H5.run_huge(ctx)           # (34) > 2^17 items
     H4.run_subclasses(ctx)     # (21)
     H4.run_default_dtype(ctx)  # (25)
     H4.run_signs(ctx)          # (26)
@@ -1758,7 +1767,7 @@ def run(ctx: Ctx):
     H4.run_large(ctx)          # (19), (28): 2^14+1 / 2^16+1 items, kernel switch-over sizes
     # seeded part
     run_local(ctx, ctx.pick(1, 8))
-    run_prog(ctx, ctx.pick(64, 1600))
+    run_prog(ctx, ctx.pick(48, 1600))
     run_routes(ctx, ctx.pick(16, 240))
     from . import util_autograd_batch as HB
     HB.run_batch(ctx, ctx.pick(30, 400))   # pass 3: the model's own batched / broadcasting layer (c04.bcall) against the code
@@ -1809,6 +1818,9 @@ def replay(ctx: Ctx, case) -> bool:
     from . import util_autograd_h4 as H4
     if c.get("stream") in H4.STREAMS and "prog" not in c:
         return H4.replay_case(ctx, c)
+    from . import util_autograd_h5 as H5
+    if c.get("stream") in H5.STREAMS and "prog" not in c:
+        return H5.replay_case(ctx, c)
     try:
         r = run_case_impl(c)
     except Exception as e:
